@@ -95,6 +95,7 @@ func (ex *Exec) callFn(fr *Frame, st *State, pc *Term, fn *ssa.Function, args []
 		return VBool{True}, pc
 	case "verif_held":
 		// the mutex is held by the current request
+		ex.freshLockFact(pc, args[0])
 		return VBool{Select(st.comp(compHeld, heldSort), lockID(args[0]))}, pc
 	case "verif_disjoint":
 		// the element windows of two slices do not overlap
